@@ -34,6 +34,44 @@ def cases(tier, seed):
         for nullable in (False, True):
             for v in POOL:
                 yield {'op': 'promote', 'kind': k.__name__, 'nullable': nullable, 'value': lit(v)}
+    # "results of arithmetic, joins, aggregates and CSV parsing are typed by the same rule applied
+    # to their values": derived columns over small value columns of every ladder kind
+    VALCOLS = [[True, False, True], [True, None, False], [1, 2, 3], [1, None, 3], [1.5, 2.5, 0.5], [None, None, None],
+               [1, 2.5, True], [date(2020, 1, 1), date(2020, 1, 2), None], ['a', 'b', 'c']]
+    for vc in VALCOLS:
+        for keys in ([0, 0, 1], [0, 1, 2], [None, None, 0]):
+            yield {'op': 'derived', 'values': lit(vc), 'keys': lit(keys)}
+
+
+def derived_columns(vals, keys):
+    """(site, result column) pairs produced by library operations from a value column."""
+    out = []
+    t = Table({'k': keys, 'v': vals})
+    for fn in ('sum', 'mean', 'min', 'max', 'count', 'stdev'):
+        for meth in ('aggregate', 'window'):
+            try:
+                r = getattr(t, meth)(over='k', **{fn + '_over': 'v'})
+            except Exception:
+                continue
+            out.append((f'{meth}.{fn}', r.cols()[-1]))
+    other = Table({'k2': [0, 5], 'w': vals[:2]})
+    for meth in ('join', 'full_join', 'inner_join'):
+        try:
+            r = getattr(t, meth)(other, 'k', 'k2', expect='many_to_many')
+        except Exception:
+            continue
+        for j, c in enumerate(r.cols()):
+            out.append((f'{meth}.col{j}', c))
+    v = Vector(vals)
+    if all(x is None or isinstance(x, (bool, int, float, complex)) for x in vals):
+        # arithmetic (where Python defines the scalar operation)
+        for name, f in (('add', lambda: v + v), ('mul2', lambda: v * 2), ('radd', lambda: 1 + v), ('neg', lambda: -v),
+                        ('truediv', lambda: v / 2), ('rsub', lambda: 2.5 - v)):
+            try:
+                out.append((name, f()))
+            except Exception:
+                continue
+    return out
 
 
 KIND_BY_NAME = {k.__name__: k for k in KINDS}
@@ -61,6 +99,22 @@ def evaluate(case):
         if got2 != want:
             fails.append(Fail('C04:infer_dtype:iterator', f'infer_dtype(iter({case["values"]})) = {got2} != {want}', want, got2))
         return fails
+    if case['op'] == 'derived':
+        for site, col in derived_columns(ev(case['values']), ev(case['keys'])):
+            if not isinstance(col, Vector) or isinstance(col, Table):
+                continue
+            vals = list(col)
+            if not vals:
+                continue
+            got, want = col.schema(), set_join(vals)
+            m = truthful(col)
+            if m:
+                fails.append(Fail(f'C03:{site}:truthful', f'{site} of {case["values"]} by {case["keys"]}: {m}', None, got))
+            elif got is None or got.kind is not want.kind or (want.nullable and not got.nullable):
+                # the statement's rule gives the kind exactly; a nullable flag without a None is tolerated
+                # only where the operation documents it (explicit-dtype sites keep the operand's flag)
+                fails.append(Fail(f'C04:{site}:not-typed-by-inference', f'{site} of {case["values"]} by {case["keys"]}: values {vals!r} typed {got}, inference gives {want}', want, got))
+        return fails
     k = KIND_BY_NAME[case['kind']]
     d = DataType(k, case['nullable'])
     v = ev(case['value'])
@@ -79,6 +133,8 @@ def evaluate(case):
 
 
 def nontrivial(case):
+    if case['op'] == 'derived':
+        return ('d', case['values'], case['keys'])
     if case['op'] == 'infer':
         vals = ev(case['values'])
         return ('i', tuple(sorted({type(v).__name__ for v in vals})), len(vals)) if len(vals) >= 2 else None
